@@ -25,7 +25,7 @@ func init() {
 		Technique:        "reference-model monitor: independent decoder (canonical test, curve equation, Jacobi symbols, larger-root rule in math/big) decides acceptance and the decoded coordinates for every input; r*P checked by reference multiplication on a sample",
 		MinEvals:         map[string]int64{"quick": 40000, "thorough": 1000000},
 		MinClasses:       map[string]int64{"quick": 60, "thorough": 60},
-		RequiredCounters: []string{"accepted_expected_and_observed", "rejected_expected_and_observed", "order_checked_by_reference", "alias_rejections"},
+		RequiredCounters: []string{"accepted_expected_and_observed", "rejected_expected_and_observed", "order_checked_by_reference", "alias_rejections", "nested_reads"},
 		Assumptions:      []string{"math/big ModSqrt/Jacobi are the oracle for residuosity; the reference decoder reproduces the 16 published generator encodings and rejects the 16 published non-subgroup encodings"},
 		Plan: func(tier string) []Child {
 			return shardsVar(pick(tier, 12, 16), Child{Flavour: "plain", NCPU: 1})
@@ -81,6 +81,13 @@ func c06compressed(c *mon.Ctx, b []byte, cls string, rng *rand.Rand) {
 		}},
 		{"ReadPoint/dataerr", func() (*banderwagon.Element, error) {
 			return common.ReadPoint(iotest.DataErrReader(bytes.NewReader(b)))
+		}},
+		{"ReadPoint/nested-after-failed-reads", func() (*banderwagon.Element, error) {
+			// history: reads that fail come first; then this stream is delivered in two chunks and, between them, the reader
+			// itself decodes another complete stream (two calls overlap on one goroutine)
+			c06failedReads(rng)
+			nr := &nestReader{data: b, chunk: 1 + rng.Intn(31), at: 1, fn: func() { c06nestedReads(c, rng) }}
+			return common.ReadPoint(nr)
 		}},
 	}
 	for di, d := range decs {
@@ -350,4 +357,47 @@ func runC06(c *mon.Ctx) {
 			}
 		})
 	}
+}
+
+// c06failedReads performs reads that must fail (their outcome is judged elsewhere: C16 for scalars, the other decoders here).
+func c06failedReads(rng *rand.Rand) {
+	for k := 0; k < 1+rng.Intn(2); k++ {
+		switch rng.Intn(4) {
+		case 0:
+			nc := be32(new(big.Int).Add(ref.R, big.NewInt(int64(rng.Intn(5))))) // >= r
+			for i, j := 0, 31; i < j; i, j = i+1, j-1 {
+				nc[i], nc[j] = nc[j], nc[i]
+			}
+			mon.Try(func() { common.ReadScalar(bytes.NewReader(nc)) })
+		case 1:
+			mon.Try(func() { common.ReadScalar(bytes.NewReader(make([]byte, rng.Intn(32)))) })
+		case 2:
+			mon.Try(func() {
+				common.ReadPoint(bytes.NewReader(be32(new(big.Int).Add(ref.P, big.NewInt(int64(rng.Intn(9)))))))
+			})
+		default:
+			mon.Try(func() { common.ReadPoint(bytes.NewReader(make([]byte, rng.Intn(32)))) })
+		}
+	}
+}
+
+// c06nestedReads decodes the generator and a scalar from chunked streams and checks both results.
+func c06nestedReads(c *mon.Ctx, rng *rand.Rand) {
+	g := banderwagon.Generator.Bytes()
+	p, err := common.ReadPoint(&nestReader{data: g[:], chunk: 1 + rng.Intn(31), at: -1})
+	if err != nil || p == nil {
+		c.Fail("rejected-valid/ReadPoint/nested", fmt.Sprintf("ReadPoint rejects the generator's encoding when called from inside another stream's reader: %v", err), nil)
+	} else if pb := p.Bytes(); pb != g {
+		c.Fail("decoded-wrong-point/ReadPoint/nested", "ReadPoint called from inside another stream's reader does not decode the generator's encoding to the generator", nil)
+	}
+	k := uint64(rng.Int63())
+	var sc [32]byte
+	for i := 0; i < 8; i++ {
+		sc[i] = byte(k >> (8 * uint(i)))
+	}
+	s, err := common.ReadScalar(&nestReader{data: sc[:], chunk: 1 + rng.Intn(31), at: -1})
+	if err != nil || s == nil || FrToBig(s).Cmp(new(big.Int).SetUint64(k)) != 0 {
+		c.Fail("wrong-value/ReadScalar/nested", fmt.Sprintf("ReadScalar called from inside another stream's reader: err=%v", err), nil)
+	}
+	c.Count("nested_reads", 1)
 }
